@@ -398,6 +398,11 @@ def correspond(ctx):
     stream_wedge_model(ctx)
     stream_parser(ctx)
     stream_allenes(ctx)
+    stream_history(ctx)
+    stream_axis(ctx)
+    stream_allene_wedges(ctx)
+    ctx.cov['programs'] += 3   # ring_attached_cumulenes / ring linkers via chiral_*, add_wedge allene branch, _wedge_map allene orders
+    ctx.cov['programs'] += 3   # add_atom_stereo, add_cis_trans_stereo, clean_stereo through the cache layer
     ctx.cov['programs'] += 2   # parser(), postprocess_molecule cis/trans loop
     ctx.cov['programs'] += 3   # SDFRead/add_wedge, SDFWrite/_wedge_map, calculate_cis_trans_from_2d
     ctx.cov['programs'] += 3   # __chiral_centers via chiral_cis_trans, fix_stereo, stereogenic_* properties
@@ -500,6 +505,12 @@ def probe(inp):
         eq = a == b
         return eq != inp['same'], (f"{inp['a']!r} -> {str(a)!r}; {inp['b']!r} -> {str(b)!r}; equal={eq}, "
                                    f"expected {'equal' if inp['same'] else 'different'} (RDKit: {rd_canon(inp['a'])!r} vs {rd_canon(inp['b'])!r})")
+    if kind == 'axis':
+        return axis_case(inp['spec'], inp['seed'], 24)
+    if kind == 'allene-wedge':
+        return allene_wedge_case(inp['seed'])
+    if kind == 'history':
+        return history_case(inp['spec'], inp['seed'], tuple(inp['warmups']))
     if kind == 'wedge-roundtrip':
         atoms, nbrs = TETRA_TEMPLATES[inp['template']]
         mol = build(dict(atoms), [(1, x, 1) for x in inp['insertion']] + [(9, 10, 1)])
@@ -2144,3 +2155,436 @@ def stream_allenes(ctx):
         elif a and b and a == b:
             ctx.fail(f'C12/mirror-images-equal/allene-{tag}', f'{ex[True]!r} and its mirror image {ex[False]!r} are equal',
                      {'kind': 'spelling-pair', 'a': ex[True], 'b': ex[False], 'same': False})
+
+
+# ================================================================================================
+# round 2: histories (labelling API after reads), ring / axis stereogenicity under renumbering, allene wedges
+# ================================================================================================
+
+WARMUPS = ('none', 'str', 'hash', 'eq', 'order', 'chiral', 'format-r', 'copy-eq')
+
+
+def warm(mol, kind, other=None):
+    """read derived values of `mol` before it is mutated (the history half of the case)"""
+    if kind == 'str':
+        str(mol)
+    elif kind == 'hash':
+        hash(mol)
+    elif kind == 'eq':
+        mol == (other if other is not None else mol.copy())
+    elif kind == 'order':
+        mol.smiles_atoms_order
+    elif kind == 'chiral':
+        mol.chiral_tetrahedrons, mol.chiral_cis_trans, mol.chiral_allenes, mol._cis_trans_count
+    elif kind == 'format-r':
+        format(mol, 'r'), format(mol, 'h')
+    elif kind == 'copy-eq':
+        str(mol), hash(mol), {mol: 1}.get(mol.copy())
+
+
+def plain_of(spec):
+    return Spec(spec.atoms, spec.bonds, name=spec.name + '~plain')
+
+
+def api_label(mol, spec, num, elements=None):
+    """label `mol` (parsed from an unmarked spelling of `spec`, atom ids -> numbers `num`) through the public API,
+    one call per element; yields after every call"""
+    for c, (ref, sign) in spec.centres.items():
+        if elements is not None and ('c', c) not in elements:
+            continue
+        env = [x for x in ref if x != 'h']
+        mark = sign != odd(env + (['h'] if 'h' in ref else []), list(ref))
+        mol.add_atom_stereo(num[c], tuple(num[x] for x in env), bool(mark))
+        yield ('c', c)
+    for (a, b), (x, y, cis) in spec.dbonds.items():
+        if elements is not None and ('d', (a, b)) not in elements:
+            continue
+        mol.add_cis_trans_stereo(num[a], num[b], num[x], num[y], bool(cis))
+        yield ('d', (a, b))
+
+
+def history_case(spec_name, spelling_seed, warmups, probe_only=False):
+    """(fails, what). Parse an unmarked spelling, interleave reads and labelling calls, compare with the marked spelling
+    parsed afresh; the differently labelled partner must differ; clean_stereo after reads must give the unmarked molecule."""
+    import random as _r
+    from chython import smiles
+    spec = next(s for s in history_specs() if s.name == spec_name)
+    rng = _r.Random(spelling_seed)
+    plain = plain_of(spec)
+    smi0, index, _ = next(iter(spellings(plain, rng, 1)))
+    num = {a: index[a] + 1 for a in index}
+    expect = smiles(next(iter(spellings(spec, rng, 1)))[0])
+    partner = smiles(next(iter(spellings(flip_some(rng, spec), rng, 1)))[0])
+    unmarked = smiles(smi0)
+    res = []
+    for variant, sp, exp in (('labelled', spec, expect), ('partner', None, None)):
+        if sp is None:
+            continue
+        mol = smiles(smi0)
+        w = list(warmups)
+        warm(mol, w[0], unmarked)
+        for k, _el in enumerate(api_label(mol, sp, num)):
+            warm(mol, w[(k + 1) % len(w)], unmarked)
+        s_now, s_fresh = str(mol), str(mol.copy())
+        if s_now != str(exp) or hash(mol) != hash(exp) or not (mol == exp):
+            res.append(f'{smi0!r} labelled through the API after reads {w}: str={s_now!r} (fresh copy {s_fresh!r}), '
+                       f'the marked spelling parses to {str(exp)!r}; equal={mol == exp}, hash equal={hash(mol) == hash(exp)}')
+        if mol == partner or str(mol) == str(partner):
+            res.append(f'{smi0!r} labelled through the API after reads {w} equals its stereo partner {str(partner)!r}')
+        if s_now == str(unmarked) and (spec.centres or spec.dbonds):
+            res.append(f'{smi0!r}: labelled molecule still prints as the unlabelled one {s_now!r}')
+        # removing labels after reads
+        warm(mol, w[-1], unmarked)
+        mol.clean_stereo()
+        if str(mol) != str(unmarked) or not (mol == unmarked):
+            res.append(f'{smi0!r}: after clean_stereo() following reads {w}: {str(mol)!r}, unlabelled molecule is {str(unmarked)!r}')
+    return bool(res), '; '.join(res[:3]) if res else f'{spec_name}: API labelling after reads {list(warmups)} agrees with the parsed marked spelling'
+
+
+def history_specs():
+    out = [s for s in tetra_specs() if '.' not in s.name] + dbond_specs()[:5] + cage_specs()[:2]
+    # skipped diene labelled in two steps (the independent writer does not spell marks shared by two double bonds)
+    a = {1: 'F', 2: 'C', 3: 'C', 4: 'C', 5: 'C', 6: 'C', 7: 'Cl'}
+    b = {(1, 2): 1, (2, 3): 2, (3, 4): 1, (4, 5): 1, (5, 6): 2, (6, 7): 1}
+    out.append(Spec(a, b, dbonds={(2, 3): (1, 4, False), (5, 6): (4, 7, True)}, name='FC=CCC=CCl'))
+    # centre + double bond
+    a = {1: 'F', 2: 'C', 3: 'C', 4: 'C', 5: 'Cl', 6: 'N', 7: 'O'}
+    b = {(1, 2): 1, (2, 3): 2, (3, 4): 1, (4, 5): 1, (4, 6): 1, (4, 7): 1}
+    out.append(Spec(a, b, {4: ([3, 5, 6, 7], True)}, {(2, 3): (1, 4, True)}, name='FC=CC(Cl)(N)O'))
+    return out
+
+
+def stream_history(ctx):
+    """R: the labelling API (`add_atom_stereo`, `add_cis_trans_stereo`, `clean_stereo`) on a molecule whose derived values
+    (`str`, `hash`, `==`, `smiles_atoms_order`, chiral sets, random-order string) were read before and between the calls"""
+    rng = ctx.rng
+    for spec in history_specs():
+        kinds = list(WARMUPS)
+        combos = [(k,) for k in kinds] + [tuple(rng.sample(kinds, 3)) for _ in range(2 if ctx.quick else 12)]
+        for w in combos:
+            seed = rng.randrange(10 ** 6)
+            ctx.count(('history', spec.name, w, seed))
+            ctx.dist('history:' + w[0])
+            try:
+                fails, what = history_case(spec.name, seed, w)
+            except Exception as e:
+                fails, what = True, f'{spec.name} reads {w}: labelling API raised {type(e).__name__}: {e}'
+            if fails:
+                ctx.fail(f'C12/stale-or-wrong-after-labelling-api/{spec.name}', what,
+                         {'kind': 'history', 'spec': spec.name, 'seed': seed, 'warmups': list(w)})
+
+
+# ---- ring / axis stereogenicity: invariance under renumbering + RDKit potential-stereo counts ---------------------------
+
+def axis_specs():
+    """unmarked ring / axis systems: (spec, description). Exocyclic double bonds and allenes on rings, 1,n-disubstituted
+    rings, spiro and cumulene ring linkers — each with symmetric (non-stereogenic) and unsymmetric (stereogenic) variants."""
+    out = []
+
+    def ring(n, first=1):
+        return {(first + i, first + (i + 1) % n): 1 for i in range(n)}
+
+    for rs, pos in ((6, 4), (4, 3), (5, 3), (8, 5), (7, 4)):
+        for exo in (('C', 'C'), ('C', 'N'), ('F', 'F'), ('F', 'Cl'), ('C', None)):
+            for rsub in (('C', None), ('C', 'C'), ('C', 'O'), (None, None)):
+                for chain in (1, 2):   # exocyclic C=C or C=C=C
+                    atoms = {i: 'C' for i in range(1, rs + 1)}
+                    bonds = ring(rs)
+                    prev = 1
+                    nxt = 100
+                    for _ in range(chain):
+                        atoms[nxt] = 'C'
+                        bonds[(prev, nxt)] = 2
+                        prev = nxt
+                        nxt += 1
+                    for e in exo:
+                        if e:
+                            atoms[nxt] = e
+                            bonds[(prev, nxt)] = 1
+                            nxt += 1
+                    for r in rsub:
+                        if r:
+                            atoms[nxt] = r
+                            bonds[(pos, nxt)] = 1
+                            nxt += 1
+                    out.append(Spec(atoms, bonds, name=f'ring{rs}-exo{"=C" * chain}({exo[0]},{exo[1]})-pos{pos}({rsub[0]},{rsub[1]})'))
+    # 1,n-disubstituted rings without double bond
+    for rs, pos in ((6, 4), (6, 3), (4, 3), (5, 3), (6, 2)):
+        for s1 in (('C', None), ('C', 'C'), ('F', 'Cl')):
+            for s2 in (('C', None), ('O', None), ('C', 'C')):
+                atoms = {i: 'C' for i in range(1, rs + 1)}
+                bonds = ring(rs)
+                nxt = 100
+                for at, subs in ((1, s1), (pos, s2)):
+                    for r in subs:
+                        if r:
+                            atoms[nxt] = r
+                            bonds[(at, nxt)] = 1
+                            nxt += 1
+                out.append(Spec(atoms, bonds, name=f'ring{rs}-1({s1[0]},{s1[1]})-{pos}({s2[0]},{s2[1]})'))
+    # spiro linkers: spiro[3.3]heptane 2,6-disubstituted; spiro[3.5]
+    for (r1, r2) in ((4, 4), (4, 6)):
+        for s1 in (('C', None), ('C', 'C'), (None, None)):
+            for s2 in (('F', None), ('F', 'F')):
+                atoms = {1: 'C'}
+                bonds = {}
+                a = [1] + list(range(10, 10 + r1 - 1))
+                b = [1] + list(range(30, 30 + r2 - 1))
+                for lst_ in (a, b):
+                    for x in lst_:
+                        atoms[x] = 'C'
+                    for i in range(len(lst_)):
+                        bonds[(lst_[i], lst_[(i + 1) % len(lst_)])] = 1
+                nxt = 100
+                for at, subs in ((a[len(a) // 2], s1), (b[len(b) // 2], s2)):
+                    for r in subs:
+                        if r:
+                            atoms[nxt] = r
+                            bonds[(at, nxt)] = 1
+                            nxt += 1
+                out.append(Spec(atoms, bonds, name=f'spiro[{r1}.{r2}]-({s1[0]},{s1[1]})-({s2[0]},{s2[1]})'))
+    # double bond linking two rings (cyclohexylidenecyclohexane) with 4,4'-substituents
+    for s1 in (('C', None), ('C', 'C')):
+        for s2 in (('C', None), ('O', None), (None, None)):
+            atoms = {i: 'C' for i in range(1, 7)}
+            atoms.update({i: 'C' for i in range(11, 17)})
+            bonds = ring(6)
+            bonds.update(ring(6, 11))
+            bonds[(1, 11)] = 2
+            nxt = 100
+            for at, subs in ((4, s1), (14, s2)):
+                for r in subs:
+                    if r:
+                        atoms[nxt] = r
+                        bonds[(at, nxt)] = 1
+                        nxt += 1
+            out.append(Spec(atoms, bonds, name=f'ring6=ring6-4({s1[0]},{s1[1]})-4p({s2[0]},{s2[1]})'))
+    return out
+
+
+def rd_potential_stereo(smi):
+    """number of potential stereo elements RDKit finds in the unmarked molecule (new perception, ring and axis aware)"""
+    from rdkit import Chem
+    m = Chem.MolFromSmiles(smi)
+    return len(Chem.FindPotentialStereo(m, cleanIt=True, flagPossible=True))
+
+
+def axis_case(spec_name, seed, n_spell=10):
+    """(fails, what): chython's set of potentially stereogenic elements of an unmarked molecule must not depend on the
+    spelling (atom numbering); it is empty iff RDKit finds no potential stereo element; and when it is empty every mark
+    written on the molecule is dropped."""
+    import random as _r
+    from chython import smiles
+    spec = next(s for s in axis_specs() if s.name == spec_name)
+    rng = _r.Random(seed)
+    sps = list(spellings(spec, rng, n_spell))
+    res, counts, strs = [], {}, set()
+    for smi, index, _ in sps:
+        m = smiles(smi)
+        inv = {v + 1: k for k, v in index.items()}
+        key = (tuple(sorted(inv[n] for n in m.chiral_tetrahedrons)),
+               tuple(sorted(tuple(sorted((inv[a], inv[b]))) for a, b in m.chiral_cis_trans)),
+               tuple(sorted(inv[n] for n in m.chiral_allenes)))
+        counts.setdefault(key, smi)
+        strs.add(str(m))
+    if len(counts) > 1:
+        (k1, s1), (k2, s2) = list(counts.items())[:2]
+        res.append(f'{spec.name}: stereogenic elements depend on the spelling: {s1!r} -> {k1}, {s2!r} -> {k2} (spec atom ids)')
+    if len(strs) > 1:
+        res.append(f'{spec.name}: one unmarked molecule, {len(strs)} canonical strings: {sorted(strs)[:3]}')
+    n_chy = sum(len(x) for x in next(iter(counts)))
+    smi0 = sps[0][0]
+    cumulated = bool(_re.search(r'=C\d*=|=C\d*\(=|\(=C\d*\)=', smi0)) or 'exo=C=C' in spec.name
+    n_rd = None
+    if not cumulated:        # RDKit has no allene / cumulene axis: those molecules are judged by the invariance clauses only
+        from rdkit import Chem
+        from rdkit.Chem import FindMolChiralCenters
+        rm = Chem.MolFromSmiles(smi0)
+        legacy = len(FindMolChiralCenters(rm, includeUnassigned=True, useLegacyImplementation=True))
+        pots = list(Chem.FindPotentialStereo(rm))
+        pot = len(pots)
+        if pot == 1 and pots[0].type == Chem.StereoType.Bond_Double:
+            legacy += 1      # a single ordinary E/Z double bond (unsymmetric ring): stereogenic on its own
+        # classic perception finds ordinary centres; the potential-stereo search finds ring / axis elements, which only
+        # exist in pairs (it also flags a lone para-centre without partner: 1 element alone is not stereogenic)
+        n_rd = legacy if legacy else (pot if pot >= 2 else 0)
+        if (n_rd == 0) != (n_chy == 0):
+            res.append(f'{smi0!r}: chython reports {next(iter(counts))} as potentially stereogenic (spec atom ids), '
+                       f'RDKit finds {legacy} classic centres and {pot} potential ring/axis elements')
+        if n_rd == 0:
+            # no stereogenic element at all: every mark written on this molecule is meaningless and must be dropped
+            for smi, index, _ in sps[:4]:
+                m0 = smiles(smi)
+                for variant in marked_variants(smi, rng):
+                    mm = smiles(variant)
+                    if str(mm) != str(m0):
+                        res.append(f'{variant!r} keeps a label on a molecule without stereogenic elements: {str(mm)!r} vs {str(m0)!r}')
+                        break
+    return bool(res), ('; '.join(res[:3]) if res else
+                       f'{spec.name}: {n_chy} stereogenic elements in every spelling (RDKit potential stereo: {n_rd})')
+
+
+def marked_variants(smi, rng):
+    """put @ / @@ on sp3 CH / C atoms and / \\ around double bonds of an unmarked spelling (syntactic decoration only)"""
+    out = []
+    toks = _re.findall(r'\[[^\]]*\]|Cl|Br|[BCNOPSFI]|.', smi)
+    m = mini_read(smi)
+    # tetrahedral: any plain C with 3 or 4 neighbours and no double bond
+    idx = -1
+    for k, t in enumerate(toks):
+        if _re.fullmatch(r'\[[^\]]*\]|Cl|Br|[BCNOPSFI]', t):
+            idx += 1
+            if t == 'C':
+                nb = [x for x in m.nbrs[idx] if x is not None]
+                dbl = any(m.orders.get(frozenset((idx, x))) == '=' for x in nb)
+                if not dbl and len(nb) in (3, 4):
+                    for mark in ('@', '@@'):
+                        out.append(''.join(toks[:k] + [f'[C{mark}{"H" if len(nb) == 3 else ""}]'] + toks[k + 1:]))
+    # double bonds: X/C=C/Y style marks on chain bonds next to '='
+    for mo in _re.finditer(r'([A-Za-z\]\)0-9])(C|\[C\])=(C)([A-Z(])', smi):
+        pass
+    rng.shuffle(out)
+    return out[:6]
+
+
+def stream_axis(ctx):
+    rng = ctx.rng
+    specs = axis_specs()
+    if ctx.quick:
+        specs = rng.sample(specs, 70)
+    for spec in specs:
+        seed = rng.randrange(10 ** 6)
+        ctx.count(('axis', spec.name, seed))
+        try:
+            fails, what = axis_case(spec.name, seed, 8 if ctx.quick else 24)
+        except Exception as e:
+            ctx.dist(f'axis-skip:{type(e).__name__}')
+            continue
+        ctx.dist('axis:' + ('FAIL' if fails else 'ok'))
+        if fails:
+            ctx.fail(f'C12/stereogenicity-ring-axis/{spec.name}', what, {'kind': 'axis', 'spec': spec.name, 'seed': seed})
+
+
+# ---- allene wedges: add_wedge / _wedge_map allene branches ------------------------------------------------------------
+
+def _vol(p, q, r, s):
+    """signed volume of the tetrahedron (q-p, r-p, s-p) — own arithmetic, not chython's"""
+    a = [q[i] - p[i] for i in range(3)]
+    b = [r[i] - p[i] for i in range(3)]
+    c = [s[i] - p[i] for i in range(3)]
+    return (a[0] * (b[1] * c[2] - b[2] * c[1]) - a[1] * (b[0] * c[2] - b[2] * c[0]) + a[2] * (b[0] * c[1] - b[1] * c[0]))
+
+
+_cal = {}
+
+
+def volume_means_at():
+    """calibrate with RDKit (3-D mol block -> chirality -> SMILES): does vol(F; Cl, Br, I) > 0 mean F[C@](Cl)(Br)I ?"""
+    if 'v' not in _cal:
+        from rdkit import Chem
+        pts = {'F': (0.0, 0.0, 1.0), 'Cl': (1.0, 0.0, -0.3), 'Br': (-0.5, 0.87, -0.3), 'I': (-0.5, -0.87, -0.3)}
+        lines = ['', '  cal', '', '  5  4  0  0  0  0  0  0  0  0999 V2000', '    0.0000    0.0000    0.0000 C   0  0  0  0  0  0  0  0  0  0  0  0']
+        for sym, (x, y, z) in pts.items():
+            lines.append(f'{x:10.4f}{y:10.4f}{z:10.4f} {sym:<3} 0  0  0  0  0  0  0  0  0  0  0  0')
+        lines += [f'  1{i:3d}  1  0' for i in range(2, 6)] + ['M  END']
+        from rdkit import RDLogger
+        RDLogger.DisableLog('rdApp.warning')
+        try:
+            m = Chem.MolFromMolBlock('\n'.join(lines))
+        finally:
+            RDLogger.EnableLog('rdApp.warning')
+        Chem.AssignStereochemistryFrom3D(m)
+        is_at = Chem.MolToSmiles(m) == Chem.CanonSmiles('F[C@](Cl)(Br)I')
+        v = _vol(pts['F'], pts['Cl'], pts['Br'], pts['I'])
+        _cal['v'] = (v > 0) == is_at
+    return _cal['v']
+
+
+def allene_wedge_case(seed, probe_only=False):
+    """(fails, what). A fully substituted allene F,Cl | Br,I in a random spelling and a drawing: axis horizontal, one end in
+    the paper plane, the other end perpendicular (its substituents wedged). Every wedge (terminal -> substituent, up/down)
+    is interpreted independently (3-D model + RDKit-calibrated volume rule -> marked SMILES) and by `add_wedge`;
+    up-to-one must equal down-to-sibling; up must differ from down; what `_wedge_map` draws must read back."""
+    import random as _r
+    from chython import smiles
+    rng = _r.Random(seed)
+    subs = [['F', 'Cl'], ['Br', 'I']]
+    for s_ in subs:
+        rng.shuffle(s_)
+    rng.shuffle(subs)
+    (a1, a2), (b1, b2) = subs
+    form = rng.choice(['{a1}C({a2})=C=C({b1}){b2}', 'C({a1})({a2})=C=C({b1}){b2}', '{a1}C(=C=C({b1}){b2}){a2}', 'C(=C({a1}){a2})=C({b1}){b2}'])
+    plain = form.format(a1=a1, a2=a2, b1=b1, b2=b2)
+    mol0 = smiles(plain)
+    num = {a.atomic_symbol: n for n, a in mol0.atoms() if a.atomic_symbol != 'C'}
+    c = next(iter(mol0.stereogenic_allenes))
+    ta = next(n for n in mol0._bonds[num[a1]])      # terminal carrying a1, a2
+    tb = next(n for n in mol0._bonds[num[b1]])
+    res = []
+    flipx, flipy, swap = rng.choice([1, -1]), rng.choice([1, -1]), rng.random() < 0.5
+    for wedged_end in (0, 1):
+        # 2-D drawing: axis along x; the wedged end's substituents close to the axis, the other end's in the plane
+        xy = {ta: (0, 0), c: (10, 0), tb: (20, 0)}
+        ends = [(ta, a1, a2, -1), (tb, b1, b2, 1)]
+        for k, (t, s1, s2, side) in enumerate(ends):
+            x0 = xy[t][0]
+            if k == wedged_end:
+                xy[num[s1]], xy[num[s2]] = (x0 + 8 * side, 2), (x0 + 8 * side, -2)
+            else:
+                xy[num[s1]], xy[num[s2]] = (x0 + 5 * side, 9), (x0 + 5 * side, -9)
+        def tr(p):
+            x, y = p[0] * flipx, p[1] * flipy
+            return (y, x) if swap else (x, y)
+        xy = {n: tr(p) for n, p in xy.items()}
+        t, s1, s2, _ = ends[wedged_end]
+        got = {}
+        for target, sibling in ((s1, s2), (s2, s1)):
+            for mark in (1, -1):
+                # independent reading: target at z = mark, sibling at z = -mark, other end in plane
+                z = {num[target]: mark, num[sibling]: -mark}
+                P = {sym: (*xy[num[sym]], z.get(num[sym], 0)) for sym in (a1, a2, b1, b2)}
+                v = _vol(P[a1], P[a2], P[b1], P[b2])
+                at = (v > 0) == volume_means_at()
+                ref = smiles(f'{a1}C({a2})=[C{"@" if at else "@@"}]=C({b1}){b2}')
+                m = smiles(plain)
+                for n, p in xy.items():
+                    m._atoms[n].xy = p
+                try:
+                    m.add_wedge(t, num[target], mark)
+                except Exception as e:
+                    res.append(f'{plain!r}: add_wedge({t}, {num[target]}, {mark}) raised {type(e).__name__}')
+                    continue
+                got[(target, mark)] = str(m)
+                if str(m) != str(ref):
+                    res.append(f'{plain!r} drawn {xy}: wedge {"up" if mark == 1 else "down"} from terminal {t} to {target}: the 3-D model is '
+                               f'{str(ref)!r}, add_wedge gives {str(m)!r}')
+                # what chython draws for this molecule must read back as it
+                wm = [w for w in m._wedge_map]
+                for n_, m_, v_ in wm:
+                    if not v_:
+                        continue
+                    m2 = smiles(plain)
+                    for n, p in xy.items():
+                        m2._atoms[n].xy = p
+                    m2.add_wedge(n_, m_, v_)
+                    if str(m2) != str(m):
+                        res.append(f'{plain!r} drawn {xy}: label {str(m)!r} is drawn as wedge {n_}->{m_} mark {v_}, which reads back as {str(m2)!r}')
+        if len(got) == 4:
+            if got[(s1, 1)] != got[(s2, -1)] or got[(s1, -1)] != got[(s2, 1)]:
+                res.append(f'{plain!r}: wedge up to {s1} and wedge down to its sibling {s2} describe one object but give {got[(s1, 1)]!r} / {got[(s2, -1)]!r}')
+            if got[(s1, 1)] == got[(s1, -1)]:
+                res.append(f'{plain!r}: up and down wedge to {s1} give the same molecule {got[(s1, 1)]!r}')
+    return bool(res), '; '.join(res[:3]) if res else f'{plain!r}: 8 wedges agree with the independent 3-D reading, sibling and up/down laws hold'
+
+
+def stream_allene_wedges(ctx):
+    for _ in range(12 if ctx.quick else 200):
+        seed = ctx.rng.randrange(10 ** 6)
+        ctx.count(('allene-wedge', seed), n=8)
+        try:
+            fails, what = allene_wedge_case(seed)
+        except Exception as e:
+            fails, what = True, f'allene wedge case {seed} raised {type(e).__name__}: {e}'
+        ctx.dist('allene-wedge:' + ('FAIL' if fails else 'ok'))
+        if fails:
+            ctx.fail('C12/allene-wedge-configuration', what, {'kind': 'allene-wedge', 'seed': seed})
